@@ -221,12 +221,15 @@ pub fn check(c: &Case, obs: &mut Obs) -> Result<(), Fail> {
         [p.red(), p.green(), p.blue(), p.alpha()]
     };
     // expected colours after compositing onto the (possibly transparent) canvas
-    let bg_tol = if bg_rgba[3] == 255 || bg_rgba[3] == 0 { 0 } else { 2 };
+    // a partially transparent background is stored premultiplied in 8 bits: read back, a colour channel is only known to
+    // 255 / (2 x alpha) (+ rounding); the alpha channel is exact
+    let bg_tol = if bg_rgba[3] == 255 || bg_rgba[3] == 0 { 0 } else { 255 / (2 * bg_rgba[3] as i32) + 2 };
     let bg_matches = |p: [u8; 4]| -> bool {
         if bg_rgba[3] == 0 {
             p[3] == 0
         } else {
-            close(p, bg_rgba, bg_tol)
+            // the alpha channel itself is exact (only the colour channels go through premultiplication rounding)
+            (0..3).all(|i| (p[i] as i32 - bg_rgba[i] as i32).abs() <= bg_tol) && p[3] == bg_rgba[3]
         }
     };
     // With an embedded image the frame and the image hide what they cover - and nothing else. Where they are is taken
@@ -359,7 +362,7 @@ fn colours() -> BoxedStrategy<(Option<ColorSpec>, Option<ColorSpec>)> {
             2 => Just(None),
             2 => (140u8..=255, 140u8..=255, 140u8..=255).prop_map(|(r, g, b)| Some(ColorSpec::Rgb([r, g, b]))),
             2 => (140u8..=255, 140u8..=255, 140u8..=255).prop_map(|(r, g, b)| Some(ColorSpec::Rgba([r, g, b, 0]))),
-            1 => (140u8..=255, 140u8..=255, 140u8..=255, 60u8..200).prop_map(|(r, g, b, a)| Some(ColorSpec::Rgba([r, g, b, a]))),
+            1 => (140u8..=255, 140u8..=255, 140u8..=255, prop_oneof![4 => 60u8..200, 1 => 1u8..60, 1 => 200u8..255]).prop_map(|(r, g, b, a)| Some(ColorSpec::Rgba([r, g, b, a]))),
         ],
     )
         .boxed()
